@@ -59,6 +59,10 @@ type Scenario struct {
 	Emb    latgeo.Emb      `json:"emb"`
 	H      *Header         `json:"h,omitempty"`
 	Only   string          `json:"only,omitempty"` // replay: restrict to one "cap/join" (or "+"/"-" for offset)
+	// Explicit: a closed polyline is written with an explicit last segment back to the start point followed by a
+	// zero-length Close (M a L b L c L a z, as raw path data: the builder would fold the last LineTo into the Close).
+	// The expected classification is the same as for the implicit closing edge.
+	Explicit bool `json:"explicit,omitempty"`
 }
 
 func (s *Scenario) svg() string {
@@ -69,6 +73,9 @@ func (s *Scenario) svg() string {
 		} else {
 			fmt.Fprintf(&b, "L%d %d", v[0], v[1])
 		}
+	}
+	if s.Closed && s.Explicit {
+		fmt.Fprintf(&b, "L%d %d", s.Pts[0][0], s.Pts[0][1])
 	}
 	if s.Closed {
 		b.WriteString("z")
@@ -81,6 +88,20 @@ var joiners = map[string]canvas.Joiner{"bevel": canvas.BevelJoin, "round": canva
 	"miterclip": canvas.MiterClipJoin, "arcs": canvas.ArcsJoin, "arcsclip": canvas.ArcsClipJoin}
 
 func build(s *Scenario) *canvas.Path {
+	if s.Closed && s.Explicit {
+		var d []float64
+		x0, y0 := s.Emb.Map(float64(s.Pts[0][0]), float64(s.Pts[0][1]))
+		for i, v := range s.Pts {
+			x, y := s.Emb.Map(float64(v[0]), float64(v[1]))
+			cmd := canvas.LineToCmd
+			if i == 0 {
+				cmd = canvas.MoveToCmd
+			}
+			d = append(d, cmd, x, y, cmd)
+		}
+		d = append(d, canvas.LineToCmd, x0, y0, canvas.LineToCmd, canvas.CloseCmd, x0, y0, canvas.CloseCmd)
+		return canvas.NewPathFromData(d)
+	}
 	p := &canvas.Path{}
 	for i, v := range s.Pts {
 		x, y := s.Emb.Map(float64(v[0]), float64(v[1]))
@@ -117,6 +138,9 @@ func asBuilt(p *canvas.Path, s *Scenario) bool {
 	}
 	if closed != s.Closed {
 		return false
+	}
+	if s.Closed && s.Explicit && len(got) >= 2 && got[len(got)-1] == got[0] {
+		got = got[:len(got)-1] // the explicit last vertex is the start point again
 	}
 	var want []oracle.Pt
 	for _, v := range s.Pts {
@@ -253,6 +277,9 @@ func exec(s *Scenario, guard bool) (ms []core.Mismatch, onlys []string) {
 			kind, msg = "panic", m
 		}
 		where := fmt.Sprintf("%s hw=%d/%d %s emb=%s", s.svg(), s.HW, s.H.S, name, s.Emb.Name)
+		if s.Closed && s.Explicit {
+			where += " (raw data, zero-length Close)"
+		}
 		if kind != "" {
 			ms = append(ms, core.Mismatch{Signature: kind + "-" + s.What + ":" + latgeo.PanicClass(msg) + "+" + s.tag(), Detail: fmt.Sprintf("%s: %v", where, msg)})
 			return
@@ -340,6 +367,9 @@ func exec(s *Scenario, guard bool) (ms []core.Mismatch, onlys []string) {
 				continue
 			}
 			tab := s.H.Table[ci][ji]
+			if s.Closed && s.Explicit {
+				cap = "square" // a closed sub-path has no caps, whatever capper is passed
+			}
 			run(name, func() *canvas.Path { return build(s).Stroke(2*hw, cappers[cap], joiners[join], 0.01*scale) },
 				func(f int) int { return tab[f] }, name, name)
 		}
@@ -471,9 +501,23 @@ func (r *runner) runGen(what string, o tlc.Opts) {
 			if k%1500 == 2 {
 				c.Sample(map[string]any{"what": what, "path": l.svg(), "half_width_scaled": l.HW, "scale": hdr.S, "grid": []int{l.GX, l.GY, l.NX, l.NY}, "facts_head": l.Facts[:min(len(l.Facts), 40)]})
 			}
-			for _, e := range embsFor(hash(l.svg()+fmt.Sprint(l.HW)), c.Thorough()) {
+			hh := hash(l.svg() + fmt.Sprint(l.HW))
+			type run struct {
+				e        latgeo.Emb
+				explicit bool
+			}
+			var runs []run
+			for i, e := range embsFor(hh, c.Thorough()) {
+				// closed polylines: identity in both forms, the other embeddings alternate
+				if l.Closed && i == 0 {
+					runs = append(runs, run{e, false}, run{e, true})
+				} else {
+					runs = append(runs, run{e, l.Closed && (int(hh)+i)%2 == 0})
+				}
+			}
+			for _, rn := range runs {
 				s := l
-				s.Emb = e
+				s.Emb, s.Explicit = rn.e, rn.explicit
 				r.cur[me].Store(&stamp{time.Now(), &s})
 				ms, onlys := exec(&s, false)
 				r.cur[me].Store(nil)
@@ -500,7 +544,7 @@ func (r *runner) runGen(what string, o tlc.Opts) {
 }
 
 func (d Driver) Run(c *core.Ctx) error {
-	c.Rule = "scenario = lattice polyline (2..K vertices on the (N+1)x(N+1) lattice, open or closed, incl. collinear reversals, repeated and crossing edges) x half width (1/4, 1/2, 1, 3/2 lattice units) printed by spec/Stroke.tla with the exact facts of every sample of a grid (step 1/3 lattice unit) around the path; each is stroked by the real Path.Stroke with 3 cappers x 6 joiners (closed paths: 6 joiners), resp. offset by +-hw with Path.Offset (closed simple contours), under 2-3 similarity embeddings; evaluations = real Stroke/Offset calls; non-trivial = distinct (polyline, half width) with at least one sample that must be covered and one that must not"
+	c.Rule = "scenario = lattice polyline (2..K vertices on the (N+1)x(N+1) lattice, open or closed, incl. collinear reversals, repeated and crossing edges) x half width (1/4, 1/2, 1, 3/2 lattice units) printed by spec/Stroke.tla with the exact facts of every sample of a grid (step 1/3 lattice unit) around the path; each is stroked by the real Path.Stroke with 3 cappers x 6 joiners (closed paths: 6 joiners; closed polylines in two forms with the same expectation: implicit closing edge through the builder, and raw data M a L b L c L a z with an explicit last segment and a zero-length Close), resp. offset by +-hw with Path.Offset (closed simple contours), under 2-3 similarity embeddings; evaluations = real Stroke/Offset calls; non-trivial = distinct (polyline, half width) with at least one sample that must be covered and one that must not"
 	c.Assumptions = []string{
 		"classification tolerance Tol = 1/12 lattice unit on both sides of distance hw (covers snap rounding and the oracle's 64-chord flattening of arcs: < 5e-4 hw)",
 		"join allowance is a disc around the vertex: limit*hw (+Tol) for miter/arcs, (limit+1)*hw for the clip variants (calibrated, DESIGN section 5 C04), none for bevel/round; square caps: hw*sqrt(2) around the end",
